@@ -114,7 +114,7 @@ func (f *Frame) inline(callee *ssa.Function, fc *FuncContract, args []Val, free 
 		label:     fmt.Sprintf("%s/%s@%d", f.label, callee.Name(), n),
 		env:       map[ssa.Value]Val{},
 		entryHeap: f.entryHeap, callStack: append(append([]*ssa.Function{}, f.callStack...), f.fn),
-		closures: f.closures,
+		closures: f.closures, frameMS: f.frameMS,
 	}
 	for i, p := range callee.Params {
 		if i < len(args) {
@@ -313,14 +313,12 @@ func (f *Frame) callbackCall(fn Term, args []Val, sig *types.Signature, st State
 	mk := func(i int) Val {
 		t := sig.Results().At(i).Type()
 		so := f.w.Sorts.SortOf(t)
-		name := fmt.Sprintf("app!%s!%d", sanitize(strings.Join(sorts, "_")+"_"+string(so)), i)
-		vc.declareFun(name, sorts, so)
+		name := f.w.AppFun("app", sorts, so, i)
 		v := vc.Define("app", App(name, so, as...))
 		f.assumeType(t, v, st)
 		return Val{T: v}
 	}
-	pname := "apppanics!" + sanitize(strings.Join(sorts, "_"))
-	vc.declareFun(pname, sorts, SBool)
+	pname := f.w.AppFun("apppanics", sorts, SBool, 0)
 	panicked := vc.Define("cbpanics", App(pname, SBool, as...))
 	pv := vc.Fresh("pv", SIface)
 	f.exit(Exit{Panic: true, PC: vc.Define("pc", And(st.PC, panicked)), Heap: st.Heap, PV: pv})
@@ -381,7 +379,7 @@ func (f *Frame) bindContractNames(fc *FuncContract, callee *ssa.Function, fnVal 
 		if n == "" || n == "_" {
 			return
 		}
-		if len(a.Tup) > 0 {
+		if len(a.Tup) > 0 || (a.Loc == nil && a.T.IsZero()) {
 			return
 		}
 		if a.Loc != nil {
@@ -866,8 +864,9 @@ func (f *Frame) seqOperand(v ssa.Value, st State) (n Term, at func(i Term) Term,
 	case *types.Slice:
 		es = f.w.Sorts.SortOf(u.Elem())
 		m := st.Heap.Comp(memComp(es), memSort(es))
-		arr := f.vc.Define("srcarr", Sel(m, SArr(x)))
-		return SLen(x), func(i Term) Term { return f.w.Sorts.Elt(arr, SOff(x), i) }, es
+		arr := f.vc.Alias("srcarr", Sel(m, SArr(x)))
+		off := f.vc.Alias("srcoff", SOff(x))
+		return SLen(x), func(i Term) Term { return f.w.Sorts.Elt(arr, off, i) }, es
 	case *types.Basic:
 		return StrLen(x), func(i Term) Term { return StrAt(x, i) }, SInt
 	}
@@ -893,7 +892,8 @@ func staticLen(v ssa.Value) (int64, bool) {
 func (f *Frame) appendBuiltin(ins ssa.CallInstruction, st State) (State, Val) {
 	vc := f.vc
 	args := ins.Common().Args
-	s := f.val(args[0]).T
+	s0 := f.val(args[0]).T
+	s := MkSlice(vc.Alias("sarr", SArr(s0)), vc.Alias("soff", SOff(s0)), vc.Alias("slen", SLen(s0)), vc.Alias("scap", SCap(s0)))
 	st0 := st
 	n, at, _ := f.seqOperand(args[1], st)
 	es := f.w.Sorts.SortOf(args[0].Type().Underlying().(*types.Slice).Elem())
@@ -906,9 +906,12 @@ func (f *Frame) appendBuiltin(ins ssa.CallInstruction, st State) (State, Val) {
 	}
 	newLen := vc.Define("newlen", Add(SLen(s), n))
 	fits := vc.Define("fits", Le(newLen, SCap(s)))
-	oldArr := vc.Define("oldarr", Sel(m, SArr(s)))
-	base := vc.Define("base", Add(SOff(s), SLen(s)))
+	oldArr := vc.Alias("oldarr", Sel(m, SArr(s)))
+	base := vc.Alias("base", Add(SOff(s), SLen(s)))
+	n = vc.Alias("n", n)
 	// in-place array
+	S := f.w.Sorts
+	o, j := Term{"o", SInt}, Term{"j", SInt}
 	var inPlace Term
 	if k, ok := staticLen(args[1]); ok && k <= 4 {
 		inPlace = oldArr
@@ -917,18 +920,25 @@ func (f *Frame) appendBuiltin(ins ssa.CallInstruction, st State) (State, Val) {
 		}
 	} else {
 		a := vc.Fresh("appended", as)
-		j := Term{"j", SInt}
-		vc.Assume(Forall([]Term{j}, Ite(And(Le(base, j), Lt(j, Add(base, n))),
-			Eq(Sel(a, j), at(Sub(j, base))), Eq(Sel(a, j), Sel(oldArr, j))), []Term{Sel(a, j)}))
+		pos := Add(o, j)
+		vc.Assume(Forall([]Term{o, j}, Eq(S.Elt(a, o, j), Ite(And(Le(base, pos), Lt(pos, Add(base, n))),
+			at(Sub(pos, base)), S.Elt(oldArr, o, j))), []Term{S.Elt(a, o, j)}, []Term{S.Elt(oldArr, o, j)}))
+		// source-side trigger: every source element lands behind the old contents
+		vc.Assume(Forall([]Term{j}, Implies(And(Le(IntLit(0), j), Lt(j, n)), Eq(S.Elt(a, SOff(s), Add(SLen(s), j)), at(j))), []Term{at(j)}))
 		inPlace = a
 	}
 	// fresh array
 	ref, h := f.allocRef(st, "grown")
 	fresh := vc.Fresh("grownarr", as)
-	j := Term{"j", SInt}
-	vc.Assume(Forall([]Term{j}, And(
-		Implies(And(Le(IntLit(0), j), Lt(j, SLen(s))), Eq(Sel(fresh, j), Sel(oldArr, Add(SOff(s), j)))),
-		Implies(And(Le(SLen(s), j), Lt(j, newLen)), Eq(Sel(fresh, j), at(Sub(j, SLen(s)))))), []Term{Sel(fresh, j)}))
+	{
+		pos := Add(o, j)
+		vc.Assume(Forall([]Term{o, j}, And(
+			Implies(And(Le(IntLit(0), pos), Lt(pos, SLen(s))), Eq(S.Elt(fresh, o, j), S.Elt(oldArr, SOff(s), pos))),
+			Implies(And(Le(SLen(s), pos), Lt(pos, newLen)), Eq(S.Elt(fresh, o, j), at(Sub(pos, SLen(s)))))), []Term{S.Elt(fresh, o, j)}))
+		vc.Assume(Forall([]Term{j}, Implies(And(Le(IntLit(0), j), Lt(j, SLen(s))), Eq(S.Elt(fresh, IntLit(0), j), S.Elt(oldArr, SOff(s), j))),
+			[]Term{S.Elt(oldArr, SOff(s), j)}))
+		vc.Assume(Forall([]Term{j}, Implies(And(Le(IntLit(0), j), Lt(j, n)), Eq(S.Elt(fresh, IntLit(0), Add(SLen(s), j)), at(j))), []Term{at(j)}))
+	}
 	ncap := vc.Fresh("newcap", SInt)
 	vc.Assume(Ge(ncap, newLen))
 	// nil/empty append of nothing keeps the slice
@@ -936,8 +946,27 @@ func (f *Frame) appendBuiltin(ins ssa.CallInstruction, st State) (State, Val) {
 	resFresh := MkSlice(ref, IntLit(0), newLen, ncap)
 	res := vc.Define("appendres", Ite(fits, resInPlace, resFresh))
 	newM := Ite(fits, Store(m, SArr(s), inPlace), Store(m, ref, fresh))
-	st.Heap = h.Set(comp, vc.Define("h."+comp, newM))
-	// allocation happens only on the growing path; keep the watermark monotone either way
+	newMd := vc.Define("h."+comp, newM)
+	st.Heap = h.Set(comp, newMd)
+	// Redundant "result view" facts with clean triggers (they follow from the
+	// two cases above): the old elements are a prefix of the result, the
+	// appended elements follow.
+	resArr := vc.Alias("resarr", Sel(newMd, SArr(res)))
+	resOff := vc.Alias("resoff", SOff(res))
+	{
+		jj := Term{"j", SInt}
+		vc.Assume(Forall([]Term{jj}, Implies(And(Le(IntLit(0), jj), Lt(jj, SLen(s))),
+			Eq(S.Elt(resArr, resOff, jj), S.Elt(oldArr, SOff(s), jj))),
+			[]Term{S.Elt(resArr, resOff, jj)}, []Term{S.Elt(oldArr, SOff(s), jj)}))
+		if k, ok := staticLen(args[1]); ok && k <= 4 {
+			for i := int64(0); i < k; i++ {
+				vc.Assume(Eq(S.Elt(resArr, resOff, Add(SLen(s), IntLit(i))), at(IntLit(i))))
+			}
+		} else {
+			vc.Assume(Forall([]Term{jj}, Implies(And(Le(IntLit(0), jj), Lt(jj, n)),
+				Eq(S.Elt(resArr, resOff, Add(SLen(s), jj)), at(jj))), []Term{at(jj)}))
+		}
+	}
 	_ = st0
 	return st, Val{T: res}
 }
@@ -945,17 +974,19 @@ func (f *Frame) appendBuiltin(ins ssa.CallInstruction, st State) (State, Val) {
 func (f *Frame) copyBuiltin(ins ssa.CallInstruction, st State) (State, Val) {
 	vc := f.vc
 	args := ins.Common().Args
-	d := f.val(args[0]).T
+	d0 := f.val(args[0]).T
+	d := MkSlice(vc.Alias("darr", SArr(d0)), vc.Alias("doff", SOff(d0)), vc.Alias("dlen", SLen(d0)), vc.Alias("dcap", SCap(d0)))
 	n0, at, _ := f.seqOperand(args[1], st)
 	es := f.w.Sorts.SortOf(args[0].Type().Underlying().(*types.Slice).Elem())
 	comp := memComp(es)
 	m := st.Heap.Comp(comp, memSort(es))
-	n := vc.Define("ncopy", Ite(Le(SLen(d), n0), SLen(d), n0))
-	oldArr := vc.Define("dstarr", Sel(m, SArr(d)))
+	n := vc.Alias("ncopy", Ite(Le(SLen(d), n0), SLen(d), n0))
+	oldArr := vc.Alias("dstarr", Sel(m, SArr(d)))
 	a := vc.Fresh("copied", ArraySort(SInt, es))
-	j := Term{"j", SInt}
-	vc.Assume(Forall([]Term{j}, Ite(And(Le(SOff(d), j), Lt(j, Add(SOff(d), n))),
-		Eq(Sel(a, j), at(Sub(j, SOff(d)))), Eq(Sel(a, j), Sel(oldArr, j))), []Term{Sel(a, j)}))
+	o, j := Term{"o", SInt}, Term{"j", SInt}
+	pos := Add(o, j)
+	vc.Assume(Forall([]Term{o, j}, Eq(f.w.Sorts.Elt(a, o, j), Ite(And(Le(SOff(d), pos), Lt(pos, Add(SOff(d), n))),
+		at(Sub(pos, SOff(d))), f.w.Sorts.Elt(oldArr, o, j))), []Term{f.w.Sorts.Elt(a, o, j)}, []Term{f.w.Sorts.Elt(oldArr, o, j)}))
 	st.Heap = st.Heap.Set(comp, vc.Define("h."+comp, Store(m, SArr(d), a)))
 	return st, Val{T: n}
 }
